@@ -13,6 +13,7 @@ usize g_woff;      // watched byte offset, see contracts/memory.c
 usize g_woff2;     // second watched offset, for bytes that are copied twice
 bool g_need2;      // the model byte travels through an intermediate position ...
 usize g_mid;       // ... at this view index of the final storage
+bool g_mid_abs;    // ... or at this byte offset of a temporary object
 usize g_cmp_wit;   // witness index chosen by the Memory::compare contract
 usize g_cmp_k;     // universally quantified index for Memory::compare
 usize g_k;         // ghost view index (universally quantified)
@@ -73,7 +74,7 @@ bool post_view(const Buffer* b)
   if(g_exp_kind >= 0 && kind != g_exp_kind)
     return false;
   if(g_exp_has && g_k < size && NV_OFFSET(b->bufferStart) + g_k == g_woff &&
-     (!g_need2 || NV_OFFSET(b->bufferStart) + g_mid == g_woff2))
+     (!g_need2 || (g_mid_abs ? g_mid : NV_OFFSET(b->bufferStart) + g_mid) == g_woff2))
     return b->bufferStart[g_k] == g_exp_byte;
   return true;
 }
@@ -167,13 +168,19 @@ static void build(Buffer& b, Pre& p, unsigned salt)
 #define o_KINDS 7
 #ifdef NV_ALIAS
 #define NV_ALIAS_CLASS(a) NV_ASSUME((a) == (NV_ALIAS != 0))
+#if NV_ALIAS
+#define NV_PICK(b, o2, alias) (&(b)) /* statically, so that symex prunes the dead branches */
+#else
+#define NV_PICK(b, o2, alias) (&(o2))
+#endif
 #else
 #define NV_ALIAS_CLASS(a) do { } while(0)
+#define NV_PICK(b, o2, alias) ((alias) ? &(b) : &(o2))
 #endif
 
 // the ghost index and the watched byte of the old view
 #define NV_GHOST_INDEX() \
-  NV_INPUT(usize, k); NV_INPUT(usize, woff); NV_INPUT(usize, woff2); g_k = k; g_woff = woff; g_woff2 = woff2; g_cmp_k = k; g_need2 = false; g_mid = 0; \
+  NV_INPUT(usize, k); NV_INPUT(usize, woff); NV_INPUT(usize, woff2); g_k = k; g_woff = woff; g_woff2 = woff2; g_cmp_k = k; g_need2 = false; g_mid = 0; g_mid_abs = false; \
   g_exp_mincap = 0; g_exp_kind = -1; g_exp_has = false
 
 static byte old_at(Buffer& b, usize i, byte v)
@@ -302,8 +309,7 @@ void h_assign_op()
   Buffer b, o2;
   build(b, P, 0);
   if(!alias) build(o2, Q, 7);
-  Buffer* op = &o2;
-  if(alias) op = &b;
+  Buffer* op = NV_PICK(b, o2, alias);
   Buffer& o = *op;
   g_alias = alias;
   g_exp_size = o.size();
@@ -368,8 +374,7 @@ void h_eq()
   Buffer b, o2;
   build(b, P, 0);
   if(!alias) build(o2, Q, 7);
-  Buffer* op = &o2;
-  if(alias) op = &b;
+  Buffer* op = NV_PICK(b, o2, alias);
   Buffer& o = *op;
   NV_PRE(wf_Buffer(&b) && wf_Buffer(&o));
   bool r = b == o;
@@ -390,8 +395,7 @@ void h_ne()
   Buffer b, o2;
   build(b, P, 0);
   if(!alias) build(o2, Q, 7);
-  Buffer* op = &o2;
-  if(alias) op = &b;
+  Buffer* op = NV_PICK(b, o2, alias);
   Buffer& o = *op;
   NV_PRE(wf_Buffer(&b) && wf_Buffer(&o));
   bool r = b != o;
@@ -446,8 +450,7 @@ void h_prepend_buf()
   Buffer b, o2;
   build(b, P, 0);
   if(!alias) build(o2, Q, 7);
-  Buffer* op = &o2;
-  if(alias) op = &b;
+  Buffer* op = NV_PICK(b, o2, alias);
   Buffer& o = *op;
   usize old = b.size(), n = o.size();
   g_exp_size = old + n;
@@ -457,6 +460,8 @@ void h_prepend_buf()
     g_exp_byte = old_at(o, k, vbyte);
   else
     g_exp_byte = old_at(b, k - n, vbyte);
+  // b.prepend(b) goes through a temporary copy: byte k of the copy sits at offset k of its storage
+  if(alias && k < n) { g_need2 = true; g_mid_abs = true; g_mid = k; }
   NV_PRE(wf_Buffer(&b) && wf_Buffer(&o));
   b.prepend(o);
   NV_POST("Buffer::prepend(const Buffer&) postcondition", post_view(&b) && (alias || wf_Buffer(&o)));
@@ -508,8 +513,7 @@ void h_append_buf()
   Buffer b, o2;
   build(b, P, 0);
   if(!alias) build(o2, Q, 7);
-  Buffer* op = &o2;
-  if(alias) op = &b;
+  Buffer* op = NV_PICK(b, o2, alias);
   Buffer& o = *op;
   usize old = b.size(), n = o.size();
   g_exp_size = old + n;
@@ -659,8 +663,7 @@ void h_swap()
   Buffer b, o2;
   build(b, P, 0);
   if(!alias) build(o2, Q, 7);
-  Buffer* op = &o2;
-  if(alias) op = &b;
+  Buffer* op = NV_PICK(b, o2, alias);
   Buffer& o = *op;
   g_alias = alias;
   snapshot(b, o);
